@@ -1051,4 +1051,290 @@ theorem codepair_progress (v : Variant) (m : Char) (hm1 : m.utf8Size = 1) (src :
     rw [e]; exact hb
 
 
+
+/-! ## the closer table is sound -/
+
+/-- **Cache invariant.** Once `scanned`, every maximal marker run — maximal as seen with
+    `pos_max = scanned_to` — that starts after `scanned_from` is recorded: the entry for its
+    length is at or beyond its start. -/
+def CacheInv (m : Char) (src : List Char) (c : Cache) : Prop :=
+  c.scanned = true →
+    ∀ s l, IsRun m src c.scannedTo s l → c.scannedFrom < s → s ≤ c.max.getD l 0
+
+/-- `pos_max = q` does not cut a marker run in two -/
+def NoCut (m : Char) (src : List Char) (q : Nat) : Prop :=
+  ¬ (0 < q ∧ charAt src (q - 1) = some m ∧ charAt src q = some m)
+
+theorem CacheInv.empty (m : Char) (src : List Char) : CacheInv m src Cache.empty := by
+  intro h; cases h
+
+theorem CacheInv.of_eq {m : Char} {src : List Char} {c c' : Cache} (h : CacheInv m src c)
+    (h1 : c'.scanned = c.scanned) (h2 : c'.scannedFrom = c.scannedFrom)
+    (h3 : c'.scannedTo = c.scannedTo) (h4 : ∀ i, c.max.getD i 0 ≤ c'.max.getD i 0) :
+    CacheInv m src c' := by
+  intro hs s l hr hf
+  rw [h3] at hr; rw [h2] at hf
+  exact Nat.le_trans (h (h1 ▸ hs) s l hr hf) (h4 l)
+
+theorem markInside_fields (v : Variant) (a b : Nat) (c : Cache) :
+    (markInside v a b c).scanned = c.scanned ∧ (markInside v a b c).scannedFrom = c.scannedFrom ∧
+    (markInside v a b c).scannedTo = c.scannedTo ∧ (markInside v a b c).max = c.max := by
+  unfold markInside; split <;> simp
+
+theorem CacheInv.markInside {m : Char} {src : List Char} {c : Cache} (h : CacheInv m src c)
+    (v : Variant) (a b : Nat) : CacheInv m src (markInside v a b c) := by
+  obtain ⟨h1, h2, h3, h4⟩ := markInside_fields v a b c
+  exact h.of_eq h1 h2 h3 (fun i => by rw [h4]; exact Nat.le_refl _)
+
+/-- the positions of the opener run hold markers -/
+theorem opener_chars {m : Char} (hm1 : m.utf8Size = 1) {src x T Z : List Char} {k pos : Nat}
+    (hsrc : src = x ++ List.replicate (k + 1) m ++ T ++ Z) (hx : byteLen x = pos) :
+    ∀ i, pos ≤ i → i < pos + (k + 1) → charAt src i = some m := by
+  intro i h1 h2
+  have e : i = byteLen x + (i - pos) := by omega
+  rw [hsrc, e, List.append_assoc, List.append_assoc, charAt_append_add]
+  exact charAt_replicate hm1 _ _ _ (by omega)
+
+/-- **The invariant is preserved by every call**: any position, any `pos_max`, silent or real,
+    from any cache satisfying it (in particular along every call sequence from the empty cache). -/
+theorem cacheInv_run (v : Variant) (hr : v.ranged = true) (hmo : v.monotone = true) (m : Char)
+    (hm1 : m.utf8Size = 1) (src : List Char) (pos posMax : Nat) (prev silent : Bool) (c : Cache)
+    (r : Option Outcome) (c' : Cache) (hinv : CacheInv m src c)
+    (h : run v m src pos posMax prev silent c = .ok (r, c')) : CacheInv m src c' := by
+  cases run_path h with
+  | other _ _ _ _ _ hc => rw [hc]; exact hinv
+  | prevGuard _ _ _ _ _ hc => rw [hc]; exact hinv
+  | inside _ _ _ _ _ hc => rw [hc]; exact hinv
+  | consult _ _ _ _ _ _ _ _ hc => rw [hc]; exact hinv.markInside _ _ _
+  | scanned rest hu _ hs =>
+    obtain ⟨x, T, Z, _, hT, hx, hsrc, f⟩ := run_frame hm1 hu
+    cases r with
+    | some o =>
+      obtain ⟨ms, R, _, _, _, _, hc', hmono⟩ :=
+        scan_some v m hm1 src pos _ posMax _ silent _ Z T [] _ c o c' f hT hs
+      rw [hc']
+      exact hinv.of_eq rfl rfl rfl (hmono hmo)
+    | none =>
+      obtain ⟨mx, hc', hmono, hruns⟩ :=
+        scan_none v m hm1 src pos _ posMax _ silent _ Z T [] _ c c' f hT hs
+      rw [hc']
+      apply CacheInv.markInside
+      unfold complete
+      rw [if_pos hr]
+      split
+      · intro _ s l hrun hf
+        simp only at hrun hf
+        by_cases hs1 : pos + 1 + runLen m rest ≤ s
+        · exact (hruns s l hrun hs1).2 hmo
+        · exfalso
+          exact hrun.2.2.2.2 ⟨by omega, opener_chars hm1 hsrc hx (s - 1) (by omega) (by omega)⟩
+      · exact hinv.of_eq rfl rfl rfl (hmono hmo)
+
+theorem IsRun.extend {m : Char} {src : List Char} {q q' s l : Nat} (h : IsRun m src q s l)
+    (hq : q ≤ q') (hcut : q = q' ∨ NoCut m src q) : IsRun m src q' s l := by
+  obtain ⟨hl, hle, hall, hright, hleft⟩ := h
+  refine ⟨hl, by omega, hall, ?_, hleft⟩
+  rintro ⟨h1, h2⟩
+  by_cases hlt : s + l < q
+  · exact hright ⟨hlt, h2⟩
+  · have e : s + l = q := by omega
+    rcases hcut with hcut | hcut
+    · omega
+    · apply hcut
+      refine ⟨by omega, ?_, e ▸ h2⟩
+      exact hall (q - 1) (by omega) (by omega)
+
+/-- **The closer table never changes the verdict.** Under the invariant, whenever the consult
+    branch answers `None` — the cache is `scanned`, `scanned_from ≤ pos`, `pos_max ≤ scanned_to`
+    and the entry for the opener's length is `≤ pos` — the loop itself, run from the same
+    `(pos, pos_max)` on ANY cache `c0`, finds no closer either. The only hypothesis about
+    `pos_max`: it equals `scanned_to` or does not cut a marker run in two. -/
+theorem cache_sound (v : Variant) (hr : v.ranged = true) (m : Char) (hm1 : m.utf8Size = 1)
+    (src : List Char) (pos posMax : Nat) (c : Cache) (rest : List Char)
+    (hinv : CacheInv m src c) (hu : slice src pos posMax = some (m :: rest))
+    (hcons : consultable v pos posMax c = true)
+    (hx : c.max.getD (1 + runLen m rest) 0 ≤ pos)
+    (hcut : posMax = c.scannedTo ∨ NoCut m src posMax) (silent : Bool) (c0 : Cache) :
+    ∃ c1, scan v m src pos posMax (1 + runLen m rest) (pos + 1 + runLen m rest) silent
+        (pos + 1 + runLen m rest) c0 = .ok (none, c1) := by
+  obtain ⟨x, T, Z, _, hT, _, _, f⟩ := run_frame hm1 hu
+  obtain ⟨⟨r, c1⟩, hs⟩ := scan_total v m hm1 src pos _ posMax (1 + runLen m rest) silent _ Z T [] _ c0 f
+  cases r with
+  | none => exact ⟨c1, hs⟩
+  | some o =>
+    exfalso
+    obtain ⟨ms, R, hms, hrun, _, _, _, _⟩ :=
+      scan_some v m hm1 src pos _ posMax _ silent _ Z T [] _ c0 o c1 f hT hs
+    unfold consultable at hcons
+    simp only [hr, Bool.not_true, Bool.false_or, Bool.and_eq_true, decide_eq_true_eq] at hcons
+    obtain ⟨hsc, hfrom, hto⟩ := hcons
+    have := hinv hsc ms _ (hrun.extend hto hcut) (by omega)
+    omega
+
+
+/-- the loop's verdict (and node) does not depend on the cache it writes to -/
+theorem scan_verdict_indep (v : Variant) (m : Char) (hm1 : m.utf8Size = 1) (src : List Char)
+    (pos p posMax n : Nat) (silent : Bool) (X0 Z : List Char) :
+    ∀ (M X1 : List Char) (matchEnd : Nat) (c d : Cache),
+      Frame src pos p posMax matchEnd X0 X1 M Z →
+      (scan v m src pos posMax n p silent matchEnd c).map Prod.fst =
+        (scan v m src pos posMax n p silent matchEnd d).map Prod.fst := by
+  intro M
+  induction M using runs_induction (m := m) with
+  | nomark M hM =>
+    intro X1 matchEnd c d f
+    have hX : byteLen (X0 ++ X1) = matchEnd := by rw [byteLen_append, f.hp, f.hme]
+    rw [scan_nomarker v m pos n p silent c f.hsrc hX f.hpm hM,
+      scan_nomarker v m pos n p silent d f.hsrc hX f.hpm hM]
+    rfl
+  | hit A k T hA hT ih =>
+    intro X1 matchEnd c d f
+    obtain ⟨h1, h2, h3⟩ := f.hit_args hm1
+    rw [scan_hit v m hm1 pos n p silent c h1 h2 h3 hA hT, scan_hit v m hm1 pos n p silent d h1 h2 h3 hA hT]
+    split
+    · split
+      · rfl
+      · split
+        · rfl
+        · rw [f.mkNode n]; rfl
+    · obtain ⟨mx, hmx, _⟩ := record_spec v.monotone c.max (k + 1) (matchEnd + byteLen A)
+      obtain ⟨mx', hmx', _⟩ := record_spec v.monotone d.max (k + 1) (matchEnd + byteLen A)
+      rw [hmx, hmx']
+      exact ih _ _ _ _ (f.next hm1)
+
+/-- **Cache transparency (one call).** Under the invariant the answer of the rule — verdict,
+    extent and, in real mode, the node — is the answer the rule gives with the closer table
+    switched off (`scanned := false`): the table only saves work. -/
+theorem cache_transparent (v : Variant) (hr : v.ranged = true) (hck : v.checked = true) (m : Char)
+    (hm1 : m.utf8Size = 1) (src : List Char) (pos posMax : Nat) (prev silent : Bool) (c : Cache)
+    (hinv : CacheInv m src c) (hcut : posMax = c.scannedTo ∨ NoCut m src posMax) :
+    (run v m src pos posMax prev silent c).map Prod.fst =
+      (run v m src pos posMax prev silent { c with scanned := false }).map Prod.fst := by
+  cases hu : slice src pos posMax with
+  | none => simp [run, hu]
+  | some u =>
+    cases u with
+    | nil => simp [run, hu]
+    | cons ch rest =>
+      by_cases hch : ch = m
+      · subst hch
+        obtain ⟨x, T, Z, _, hT, _, _, f⟩ := run_frame hm1 hu
+        have hindep := fun d => scan_verdict_indep v ch hm1 src pos _ posMax (1 + runLen ch rest) silent
+          _ Z T [] _ c d f
+        rw [run_marker v ch prev silent c hu, run_marker v ch prev silent _ hu]
+        have hnc : consultable v pos posMax { c with scanned := false } = false := by
+          simp [consultable]
+        simp only [hnc, Bool.false_eq_true, if_false]
+        split
+        · rfl
+        · split
+          · rfl
+          · split
+            · rename_i hcons
+              simp only [lookup, hck, if_true]
+              split
+              · rename_i hx
+                obtain ⟨c1, hc1⟩ := cache_sound v hr ch hm1 src pos posMax c rest hinv hu hcons hx hcut
+                  silent { c with scanned := false }
+                rw [hc1]; rfl
+              · exact hindep _
+            · exact hindep _
+      · rw [run_other v m prev silent c hu hch, run_other v m prev silent _ hu hch]; rfl
+
+
+/-! ## `inside_failed` -/
+
+theorem insideFailed_done (v : Variant) (pos p posMax : Nat) (c : Cache) :
+    (markInside v pos p (complete v pos posMax c)).insideFailed = (markInside v pos p c).insideFailed := by
+  unfold markInside complete
+  split <;> split <;> (try split) <;> rfl
+
+/-- a call at a position recorded in `inside_failed` answers `None` in both modes and leaves
+    the cache untouched -/
+theorem inside_hit (v : Variant) (hi : v.inside = true) (m : Char) (src : List Char)
+    (pos posMax : Nat) (prev silent : Bool) (c : Cache) (r : Option Outcome) (c' : Cache)
+    (hmem : c.insideFailed.contains pos = true)
+    (h : run v m src pos posMax prev silent c = .ok (r, c')) : r = none ∧ c' = c := by
+  cases run_path h with
+  | other _ _ _ _ hr hc => exact ⟨hr, hc⟩
+  | prevGuard _ _ _ _ hr hc => exact ⟨hr, hc⟩
+  | inside _ _ _ _ hr hc => exact ⟨hr, hc⟩
+  | consult _ _ _ hn _ _ _ _ _ => exact absurd ⟨hi, hmem⟩ hn
+  | scanned _ _ hn _ => exact absurd ⟨hi, hmem⟩ hn
+
+/-- every remembered position lies strictly inside a marker run: a marker before it and at it -/
+def InsideInv (m : Char) (src : List Char) (c : Cache) : Prop :=
+  ∀ q ∈ c.insideFailed, 0 < q ∧ charAt src (q - 1) = some m ∧ charAt src q = some m
+
+theorem InsideInv.empty (m : Char) (src : List Char) : InsideInv m src Cache.empty := by
+  intro q hq; cases hq
+
+theorem mem_interior {a b q : Nat} : q ∈ interior a b ↔ a < q ∧ q < b := by
+  unfold interior
+  rw [List.mem_range'_1]; omega
+
+theorem InsideInv.markInside {m : Char} (hm1 : m.utf8Size = 1) {src x T Z : List Char} {k pos : Nat}
+    (hsrc : src = x ++ List.replicate (k + 1) m ++ T ++ Z) (hx : byteLen x = pos)
+    {c : Cache} (h : InsideInv m src c) (v : Variant) :
+    InsideInv m src (markInside v pos (pos + 1 + k) c) := by
+  unfold MdIt.CodePair.markInside
+  split
+  · intro q hq
+    simp only [List.mem_append] at hq
+    rcases hq with hq | hq
+    · exact h q hq
+    · rw [mem_interior] at hq
+      have hc := opener_chars hm1 hsrc hx
+      exact ⟨by omega, hc (q - 1) (by omega) (by omega), hc q (by omega) (by omega)⟩
+  · exact h
+
+/-- positions are only ever recorded strictly inside a marker run, by a call that answered
+    `None`: `InsideInv` is preserved by every call, and a call answering `Some` records nothing -/
+theorem insideInv_run (v : Variant) (m : Char) (hm1 : m.utf8Size = 1) (src : List Char)
+    (pos posMax : Nat) (prev silent : Bool) (c : Cache) (r : Option Outcome) (c' : Cache)
+    (hinv : InsideInv m src c) (h : run v m src pos posMax prev silent c = .ok (r, c')) :
+    InsideInv m src c' ∧ (r ≠ none → c'.insideFailed = c.insideFailed) ∧
+      (∀ q ∈ c'.insideFailed, q ∈ c.insideFailed ∨ (r = none ∧ pos < q ∧ charAt src pos = some m)) := by
+  cases run_path h with
+  | other _ _ _ _ _ hc => subst hc; exact ⟨hinv, fun _ => rfl, fun q hq => Or.inl hq⟩
+  | prevGuard _ _ _ _ _ hc => subst hc; exact ⟨hinv, fun _ => rfl, fun q hq => Or.inl hq⟩
+  | inside _ _ _ _ _ hc => subst hc; exact ⟨hinv, fun _ => rfl, fun q hq => Or.inl hq⟩
+  | consult rest _ hu _ _ _ _ hr hc =>
+    obtain ⟨x, T, Z, _, hT, hx, hsrc, f⟩ := run_frame hm1 hu
+    subst hc
+    refine ⟨hinv.markInside hm1 hsrc hx v, fun hne => absurd hr hne, ?_⟩
+    intro q hq
+    unfold markInside at hq
+    split at hq
+    · simp only [List.mem_append, mem_interior] at hq
+      rcases hq with hq | hq
+      · exact Or.inl hq
+      · exact Or.inr ⟨hr, hq.1, opener_chars hm1 hsrc hx pos (Nat.le_refl _) (by omega)⟩
+    · exact Or.inl hq
+  | scanned rest hu _ hs =>
+    obtain ⟨x, T, Z, _, hT, hx, hsrc, f⟩ := run_frame hm1 hu
+    cases r with
+    | some o =>
+      obtain ⟨_, _, _, _, _, _, hc', _⟩ :=
+        scan_some v m hm1 src pos _ posMax _ silent _ Z T [] _ c o c' f hT hs
+      rw [hc']
+      exact ⟨hinv, fun _ => rfl, fun q hq => Or.inl hq⟩
+    | none =>
+      obtain ⟨mx, hc', _, _⟩ := scan_none v m hm1 src pos _ posMax _ silent _ Z T [] _ c c' f hT hs
+      have hmi := hinv.markInside hm1 hsrc hx v
+      have e : c'.insideFailed = (markInside v pos (pos + 1 + runLen m rest) c).insideFailed := by
+        rw [hc', insideFailed_done]
+        unfold markInside; split <;> rfl
+      refine ⟨fun q hq => hmi q (e ▸ hq), fun hne => absurd rfl hne, ?_⟩
+      intro q hq
+      rw [e] at hq
+      unfold markInside at hq
+      split at hq
+      · simp only [List.mem_append, mem_interior] at hq
+        rcases hq with hq | hq
+        · exact Or.inl hq
+        · exact Or.inr ⟨rfl, hq.1, opener_chars hm1 hsrc hx pos (Nat.le_refl _) (by omega)⟩
+      · exact Or.inl hq
+
+
 end MdIt.CodePair
